@@ -46,6 +46,7 @@ class FnSpec:
         self.header = ""
         self.sig = []
         self.loops = {}
+        self.opt_loops = set()  # loop numbers written `n?`: their annotations are skipped (logged) when the function has fewer loops
         self.ats = []       # (loopno, where, text)
         self.befores = []   # (regex, k, text)
         self.afters = []
@@ -183,10 +184,15 @@ def parse_spec(path):
                 flush(); m2 = re.match(r"/(.*)/\s*=>\s*(.*)$", rest)
                 cur_fn.sig.append((m2.group(1), m2.group(2)))
             elif kw == "@loop":
-                flush(); sink = ("loop", cur_fn, int(rest))
+                flush()
+                if rest.strip().endswith("?"):
+                    cur_fn.opt_loops.add(int(rest.strip()[:-1]))
+                sink = ("loop", cur_fn, int(rest.strip().rstrip("?")))
             elif kw == "@at":
-                flush(); m2 = re.match(r"loop\s+(\d+)\s+(body_start|body_end|after)", rest)
-                sink = ("at", cur_fn, int(m2.group(1)), m2.group(2))
+                flush(); m2 = re.match(r"loop\s+(\d+)(\?)?\s+(body_start|body_end|after)", rest)
+                if m2.group(2):
+                    cur_fn.opt_loops.add(int(m2.group(1)))
+                sink = ("at", cur_fn, int(m2.group(1)), m2.group(3))
             elif kw in ("@before", "@after"):
                 flush(); m2 = re.match(r"/(.*)/\s*(?:#(\d+))?\s*$", rest)
                 if not m2:
@@ -430,6 +436,18 @@ def rw_drop_crate_use(text):
     return re.subn(r"(?m)^[ \t]*use crate::[^;]*;[ \t]*\n", "", text)
 
 
+def rw_ref_pattern(text):
+    """`if let Some(&x) = E {`  ->  `if let Some(__ref_x) = E { let x = *__ref_x;`  (what a `&x` pattern means for a Copy value)"""
+    cnt = 0
+
+    def r(m):
+        nonlocal cnt
+        cnt += 1
+        return "if let Some(__ref_%s) = %s { let %s = *__ref_%s;" % (m.group(1), m.group(2), m.group(1), m.group(1))
+    text = re.sub(r"if let Some\(&(\w+)\) = ([^{;]+?) \{", r, text)
+    return text, cnt
+
+
 GENERIC = [
     ("drop function-local `use crate::..;` imports", rw_drop_crate_use),
     ("drop #[cfg(feature=..)]-guarded debug statements", rw_drop_cfg_verbose),
@@ -437,6 +455,7 @@ GENERIC = [
     ("crate::env_cache::*() and std::env::var(\"RAGC_*\").is_ok() debug switches -> false", rw_env_cache),
     ("drop dead `if <debug switch> { .. }` blocks", rw_drop_if_debug),
     ("anyhow::bail!(..) -> return Err(AnyErr); anyhow!(..) -> AnyErr", rw_anyhow),
+    ("`if let Some(&x) = E {` -> `if let Some(__ref_x) = E { let x = *__ref_x;`", rw_ref_pattern),
     ("for &x in slice / for (i,&x) in slice.iter().enumerate() -> indexed loop; for &x in v.iter().rev() -> reverse index while-loop", rw_for_ref_pattern),
 ]
 
@@ -564,10 +583,15 @@ def extract_fn(src, msk, fs, log):
         rlog.append("%s: syntactic flag %s = %s (does the function text match /%s/)" % (fs.name, nm, val, dict(fs.flags)[nm]))
     lps = L.loops(msk2, body_open, body_close)
     for n, inv in fs.loops.items():
+        if n > len(lps) and n in fs.opt_loops:
+            rlog.append("%s: loop %d is gone, its invariant block is not used" % (fs.name, n))
+            continue
         if n > len(lps):
             raise AnchorLost("%s: loop %d not found (function has %d loops)" % (fs.name, n, len(lps)))
         ins.append((lps[n - 1][1], "\n" + inv))
     for n, where, t in fs.ats:
+        if n > len(lps) and n in fs.opt_loops:
+            continue
         if n > len(lps):
             raise AnchorLost("%s: loop %d not found" % (fs.name, n))
         kw, lb, lc = lps[n - 1]
